@@ -1,6 +1,6 @@
 (* Correspondence for C13/C14/C15: the controller's performed actions with the digest it
    observed on the real client after each of them. *)
-From Verif Require Import Base.Str Rt.Ws.
+From Verif Require Import Base.Str Rt.Ws Rt.WsSpec.
 From Coq Require Import Arith.
 
 Record obs := { o_reader : nat; o_calls : list nat; o_frames : nat; o_closes : nat; o_panicked : bool }.
@@ -31,7 +31,17 @@ Record ws_case := {
   w_acts : list (label * obs);
   w_delivered : list (list N);     (* observed per subscription *)
   w_api_ok : list bool;            (* observed result of each API call, in call order (true = nil error) *)
+  w_frames : option (list wframe); (* the frames observed on the wire after the handshake, oldest first
+                                      (None: some frame carried an id the controller could not attribute) *)
 }.
+
+Definition wframe_eqb (x y : wframe) : bool :=
+  match x, y with
+  | WSubscribe i, WSubscribe j => Nat.eqb i j
+  | WComplete i, WComplete j => Nat.eqb i j
+  | WClose, WClose => true
+  | _, _ => false
+  end.
 
 (* replay: every label must be enabled in the model and give the observed digest *)
 Fixpoint replay (s : st) (acts : list (label * obs)) : option st :=
@@ -51,6 +61,10 @@ Definition ws_agrees (c : ws_case) : bool :=
   match replay init (w_acts c) with
   | Some s => list_eqb (list_eqb N.eqb) (map s_delivered (subs s)) (w_delivered c)
               && list_eqb Bool.eqb (api_results s) (w_api_ok c)
+              && match w_frames c with
+                 | Some fr => list_eqb wframe_eqb (rev (frames s)) fr
+                 | None => true
+                 end
   | None => false
   end.
 
@@ -79,7 +93,17 @@ Fixpoint check_delivered (k : nat) (ds : list (list N)) (acts : list (label * ob
   | d :: r => is_prefix_N d (sent_for k acts) && check_delivered (S k) r acts
   end.
 
-Definition ws_spec_ok (c : ws_case) : bool := check_delivered 0 (w_delivered c) (w_acts c).
+(* ... and, when the performed actions are a SEQUENCE of API calls in the sense of the grammar
+   theorem (Rt/WsSpec.v: [sequential]), the frames observed on the wire are an accepted
+   conversation *)
+Definition ws_spec_ok (c : ws_case) : bool :=
+  check_delivered 0 (w_delivered c) (w_acts c)
+  && match w_frames c with
+     | Some fr => if sequential (map fst (w_acts c)) then conv_ok [] [] fr else true
+     | None => true
+     end.
+Definition ws_sequential_cases (cs : list ws_case) : nat :=
+  List.length (filter (fun c => sequential (map fst (w_acts c))) cs).
 
 Definition ws_specfails (cs : list ws_case) : list nat :=
   map w_id (filter (fun c => negb (ws_spec_ok c)) cs).
